@@ -10,6 +10,12 @@ Driver of C18. Two case kinds (payload, space separated):
   offending token starts at byte offset `off` (`eof`: the EOF token). Result: `line,col` the
   error must carry = the fields of that token in the lexer model.
 
+* `S <ref-hex> <var-hex> <tree>` — statement separation: `var` is the comment-free program `ref`
+  with comments put into its gaps; result: the canonical tree (or parse error kind) the real
+  parser must produce for `var` = the one it produced for `ref` (shipped in the payload),
+  provided the rule of `sepCase` applies — decided here from the lexer model's token lines.
+  The known finding hash-comment-column concerns columns only and excuses nothing here.
+
 The specification (true line / column recomputed from the byte offset, `Ecal.Lex.Spec`) is
 evaluated on every case for every token except EOF (which has no first character). Where the
 model (= the code) deviates from it the line carries `spec=<result with true positions>` and
@@ -77,6 +83,31 @@ def errCase (src : List Nat) (off : String) : String :=
     attrs { model := j.1, spec := j.2.1, deviates := j.2.2.1, explained := j.2.2.2,
             nontrivial := t.line > 1 }
 
+/-- tokens the parser sees (comments are attached to nodes as meta data, never parsed) -/
+def parserToks (src : List Nat) : List Tok :=
+  (lex src).toList.filter fun t => t.id != tPRECOMMENT && t.id != tPOSTCOMMENT
+
+/-- for every token but the first: is it on the same line as the token before it?  Token lines
+    never decrease, so this list fixes the outcome of every `<` / `==` between the lines of any two
+    tokens — all the parser ever does with them (run: new statement on a new line; ndReturn;
+    ndIdentifier `[`; hasMoreStatements). -/
+def sameLineRel : List Tok → List Bool
+  | a :: b :: rest => (a.line == b.line) :: sameLineRel (b :: rest)
+  | _ => []
+
+/-- `S` cases. Rule: if reference and variant have the same parser-visible tokens (kind, value,
+    flags; EOF included) and the same `sameLineRel`, the parser must produce the same canonical
+    tree / error kind for both; the tree of the reference comes with the payload. -/
+def sepCase (ref var : List Nat) (tree : String) : String :=
+  let tr := parserToks ref
+  let tv := parserToks var
+  let key (t : Tok) := (t.id, t.val, t.identifier, t.allowEscapes)
+  if tr.map key != tv.map key then "rule-not-applicable:tokens-differ"
+  else if sameLineRel tr != sameLineRel tv then "rule-not-applicable:line-relation-differs"
+  else
+    let comments := (lex var).toList.any fun t => t.id = tPRECOMMENT || t.id = tPOSTCOMMENT
+    tree ++ (if comments && (sameLineRel tv).any (!·) then "\tnt=1" else "")
+
 def runCase (payload : String) : String :=
   match payload.splitOn " " with
   | ["L", h] => match hexDecode h with
@@ -85,6 +116,9 @@ def runCase (payload : String) : String :=
   | ["E", _k, h, off] => match hexDecode h with
     | some src => errCase src off
     | none => "bad-payload"
+  | ["S", r, v, tree] => match hexDecode r, hexDecode v with
+    | some r, some v => sepCase r v tree
+    | _, _ => "bad-payload"
   | _ => "bad-payload"
 
 def run (_args : List String) : IO Unit := lineLoop runCase
